@@ -14,9 +14,10 @@ RULE = (
     "Hypothesis-generated schema-valid patch-set documents (names from [a-zA-Z0-9_]+ with a boosted "
     "dictionary of internally used words, value tuples of ints/floats/strings incl. 1 vs 1.0, 1-3 labels, "
     "1-6 patches, injected duplicate names / value tuples, correct or single-algorithm-wrong digests, "
-    "RFC 6902 operation lists built against the current workspace state) with generated lookup keys; plus, "
+    "RFC 6902 operation lists built against the current workspace state; a third of the workspaces carry a "
+    "non-ASCII channel or measurement name) with generated lookup keys; plus, "
     "per case, the exhaustive enumeration of every single-leaf corruption (number +-1 ulp / +1, string "
-    "edit, element removed / duplicated / swapped, key renamed) of the verified workspace. Oracles: accept "
+    "edit incl. appended / replaced non-ASCII characters, element removed / duplicated / swapped, key renamed) of the verified workspace. Oracles: accept "
     "iff names and value tuples pairwise distinct; lookup by exactly name / tuple / list, anything else "
     "InvalidPatchLookup; document order; verify succeeds iff every recorded digest matches; digest "
     "invariant under recursive key reordering and different under every corruption; apply == independent "
